@@ -314,3 +314,24 @@ def check(ctx) -> None:
     from . import c05
 
     c05.rule_p1(ctx, Pipeline(ctx), "C14-S7", only_duplicates=True)
+    # S9: the front end does not drop rows after a look at their text (shared with C05-P11)
+    c05.rule_p11(ctx, "C14-S9")
+    rule_s8(ctx)
+
+
+def rule_s8(ctx) -> None:
+    """Whether a row is a reaction at all is decided by parsing it (and by counting the separator): the admission test
+    of the pipeline applies no regular expression or character test to the text, which would reject some spellings of a
+    reaction (two-digit ring closures written with `%`) and accept others."""
+    ctx.rule("C14-S8", "RSMIProcessing.can_parse decides by the separator and by RDKit parsing, not by a test on the characters", 1)
+    f = ctx.prog.func("synrbl.SynProcessor.rsmi_processing.RSMIProcessing.can_parse")
+    lexical = []
+    for c in [x for x in own_nodes(f.node) if isinstance(x, ast.Call) and isinstance(x.func, ast.Attribute)]:
+        if c.func.attr in ("fullmatch", "match", "search", "findall", "isalnum", "isalpha", "isascii", "isprintable", "startswith", "endswith") or (c.func.attr in ("sub", "count", "find") and c.args):
+            lexical.append(c)
+    for n in own_nodes(f.node):
+        if isinstance(n, ast.Compare) and len(n.ops) == 1 and isinstance(n.ops[0], (ast.In, ast.NotIn)) and isinstance(n.left, ast.Constant) and isinstance(n.left.value, str):
+            lexical.append(n)
+    ctx.instance("C14-S8", "can_parse: %d test(s) on the characters of the text" % len(lexical), f.loc(), ok=not lexical)
+    for c in lexical:
+        ctx.finding("C14-S8", "RSMIProcessing.can_parse:lexical-test", f.loc(c), "can_parse rejects a row after %s on its text: spellings of one reaction that differ in characters (`%%10` ring closures, isotopes, unusual bonds) are then admitted or dropped differently" % unparse(c)[:50])
